@@ -79,6 +79,43 @@ def classify(e, env, depth=0):
     return ("float", f) if f else ("unknown", None)
 
 
+def _peeled(e, env, depth=0):
+    while True:
+        if isinstance(e, ast.Call) and isinstance(e.func, ast.Attribute) and e.func.attr in ("astype", "reshape", "copy", "ravel", "flatten"):
+            e = e.func.value
+        elif isinstance(e, ast.Attribute) and e.attr == "T":
+            e = e.value
+        elif isinstance(e, ast.Call) and core.src(e.func) in ("np.array", "np.asarray", "np.ascontiguousarray") and e.args:
+            e = e.args[0]
+        elif isinstance(e, ast.Name) and e.id in env and depth < 4:
+            e, depth = env[e.id], depth + 1
+        else:
+            return e
+
+
+def truncating_parameters():
+    """{function name: [(parameter position, parameter name, line)]}: parameters that reach an integer conversion without
+    a rounding call inside the function, so that the caller is responsible for handing over integers"""
+    out: dict = {}
+    for rel in SCOPE:
+        tree = core.parse(rel)
+        for fn in [n for n in ast.walk(tree) if isinstance(n, ast.FunctionDef)]:
+            params = [a.arg for a in fn.args.args]
+            env = _assigned_once(fn)
+            for n in ast.walk(fn):
+                op = None
+                if isinstance(n, ast.Call) and isinstance(n.func, ast.Attribute) and n.func.attr == "astype" and n.args and _int_dtype(n.args[0]):
+                    op = n.func.value
+                elif isinstance(n, ast.Call) and core.src(n.func) in ("np.array", "np.asarray") and n.args and any(k.arg == "dtype" and _int_dtype(k.value) for k in n.keywords):
+                    op = n.args[0]
+                if op is None:
+                    continue
+                root = _peeled(op, env)
+                if isinstance(root, ast.Name) and root.id in params and root.id != "self":
+                    out.setdefault(fn.name, []).append((params.index(root.id) - (1 if params and params[0] == "self" else 0), root.id, rel, n.lineno))
+    return out
+
+
 def run(rep: core.Report, rid: str, floor: int = 6):
     rep.rule(rid, "a float matrix that is integer only up to rounding error (change of basis through a matrix inverse, quotient) is rounded before it is converted to an integer dtype; a bare astype(int) / dtype=int truncates toward zero", floor)
     for rel in SCOPE:
@@ -98,6 +135,31 @@ def run(rep: core.Report, rid: str, floor: int = 6):
                     continue
                 rep.instance(rid, rel, core.qualname_of(fn), core.norm(core.src(n), 100), kind == "rounded",
                              f"the operand is a float expression ({why}) converted to an integer dtype without rounding: an entry that is an integer up to rounding error (4.999999999999999) is truncated to the integer below, and the change of basis / index built from it is wrong for those lattices", line=n.lineno)
+    run_calls(rep, rid)
+
+
+def run_calls(rep: core.Report, rid: str):
+    """Interprocedural half: a function that converts a parameter to an integer dtype without rounding relies on its
+    callers; every call site in the scope whose argument is a float expression (inverse, quotient) not wrapped in a
+    rounding call is a report."""
+    tp = truncating_parameters()
+    for rel in SCOPE:
+        tree = core.parse(rel)
+        for fn in [n for n in ast.walk(tree) if isinstance(n, ast.FunctionDef)]:
+            env = _assigned_once(fn)
+            for c in ast.walk(fn):
+                if not isinstance(c, ast.Call):
+                    continue
+                name = c.func.attr if isinstance(c.func, ast.Attribute) else (c.func.id if isinstance(c.func, ast.Name) else None)
+                for pos, pname, drel, dline in tp.get(name, []):
+                    arg = c.args[pos] if 0 <= pos < len(c.args) else next((k.value for k in c.keywords if k.arg == pname), None)
+                    if arg is None:
+                        continue
+                    kind, why = classify(arg, env)
+                    if kind == "unknown":
+                        continue
+                    rep.instance(rid, rel, core.qualname_of(fn), f"{name}({pname}={core.norm(core.src(arg), 50)})", kind == "rounded",
+                                 f"{name} converts its parameter '{pname}' to an integer dtype without rounding ({drel}:{dline}); this call hands it a float expression ({why}) that is an integer matrix only up to rounding error: 2.9999999999999996 becomes 2, and the commensurate points / supercell built from it belong to another matrix", line=c.lineno)
 
 
 def variants(b, n, rid):
